@@ -13,7 +13,7 @@ import z3
 from pyvc import smt
 from pyvc.smt import Val, ValList, SeqVal
 from pyvc.values import *  # noqa
-from pyvc.contracts import Contract, Loop
+from pyvc.contracts import Contract, Loop, InjectCfg
 from . import common, workers, persistent
 
 ID = 'C06'
@@ -25,7 +25,7 @@ TRUSTED = [common.TEXT['chan'], common.TEXT['msgsock']]
 ASSUMPTIONS = [
     'channel invariant B.3/B.6 for the data socket of a persistent backend (assumed by L3, proved for the writer only as far as C05.L1 goes): '
     'result messages (i, True, v, id) with i = 1..n, then at most one end marker (n or n+1, False, None, id), then the final pair and the user_state; the stream may END ANYWHERE',
-    'L1/L2 in their at-all-points form (kill or terminate landing at every statement of the child loop, thread kind inside a Pool) are not discharged in this round: the design probe P-21 (marker lost when the exception lands on the put of PersistentThreadWorker._cleanup) is therefore not reported by this check',
+    'L6 covers the child loop (do_work, _send_result) with one terminate / kill at every statement boundary; L7 covers the landing points inside _cleanup of the thread kind (open finding F-C06-4); for the process and remote kinds a marker lost there is made up for by EOF on the pipe / the fabricated marker of L3',
 ]
 MUTANTS = [
     ('pyworkers/persistent.py', "        self._counter = 0 # (re)set by _init_child", "        pass # (re)set by _init_child", 'the result counter exists only after _init_child(): _cleanup crashes when the terminate lands earlier'),
@@ -237,12 +237,36 @@ def build(ex):
     lemmas.append(cleanup_lemma(PTW, 'L5-thread', 'LocalPipe'))
     lemmas.append(cleanup_lemma(PPW, 'L5-process', 'Pipe'))
     lemmas.append(cleanup_lemma(PRW, 'L5-remote', 'LocalPipe'))
+
+    # ------------------------------------------------------------------ L6 the child loop interrupted at any statement boundary
+    # the do_work loops of C05 once more, now with one asynchronous event injected at EVERY statement boundary of do_work and _send_result
+    # (also between evaluating a right-hand side and storing it): a graceful terminate (WorkerTerminatedError raised there) for all kinds, and for the
+    # process and remote kinds a kill (the process vanishes there).  Whatever has been written to the result channel at that moment is a correct prefix.
+    persistent.spec_functions(ex)
+    for kind in ('thread', 'process', 'remote'):
+        cls = persistent.KINDS[kind]
+        con = persistent.do_work_contract(ex, kind, f'L6-{kind}', 'LocalPipe' if kind == 'thread' else 'Pipe', 'list')
+        con.name = (f'C06.L6-{kind} do_work interrupted at any statement boundary (terminate' + ('' if kind == 'thread' else ' or kill') +
+                    '): what has been written to the result channel is a correct prefix of the expected results')
+        con.inject = InjectCfg([cls + '.do_work', cls + '._send_result'], budget=1, kinds=('wte',) if kind == 'thread' else ('wte', 'kill'), split_store=True)
+        con.on_vanish = list(con.all_exits)
+        lemmas.append((con, None))
+
+    # ------------------------------------------------------------------ L7 a terminate landing inside _cleanup itself (thread kind: the results pipe has no EOF)
+    con, _ = cleanup_lemma(PTW, 'L7-thread', 'LocalPipe')
+    con.name = ('C06.L7-thread a graceful terminate landing inside PersistentThreadWorker._cleanup: the end marker is still written '
+                '(a LocalPipe has no EOF, the marker is the only end-of-stream signal a multiplexing consumer gets)')
+    con.all_exits = list(con.ensures)
+    con.raises = {'WorkerTerminatedError': None}
+    con.raises_only = ['WorkerTerminatedError']
+    con.inject = InjectCfg([PTW + '._cleanup'], budget=1, kinds=('wte',), split_store=True)
+    lemmas.append((con, None))
     return lemmas
 
 
 def replay(ob, repo):
     from pyvc.native import run_script
-    r = run_script('c06_native.py', {'lemma': ob['lemma'].split(' ')[0].split('.')[-1]}, repo, timeout=150)
+    r = run_script('c06_native.py', {'lemma': ob['lemma'].split(' ')[0].split('.')[-1], 'injections': (ob.get('info') or {}).get('injections')}, repo, timeout=150)
     return bool(r.get('violates')), r
 
 
